@@ -8,8 +8,8 @@ import (
 	"github.com/openconfig/goyang/pkg/yang"
 	"verif/mc/dump"
 	"verif/mc/explore"
-	"verif/mc/order"
 	"verif/mc/gen/scale"
+	"verif/mc/order"
 	"verif/mc/props/scalekit"
 )
 
